@@ -188,7 +188,7 @@ def _h_same_content_opaque(interp, st, a):
 HOOKS_EXPANDED = {"same_content": _h_same_content}
 HOOKS_OPAQUE = {"same_content": _h_same_content_opaque}
 CONTRACTS["models.pddl_state:State.copy"] = dict(
-    prop="C14", params={"self": _ST}, returns=_ST,
+    prop="C14", shards=4, params={"self": _ST}, returns=_ST,
     requires=STATE_WF,
     ensures=[
         # a new state object with new dictionaries
